@@ -82,3 +82,65 @@ Proof.
   intros S. rewrite <- (app_nil_r (encode cp)) at 1.
   rewrite (spec_valid (encode cp) [] (Valid_single _ (encode_wf cp S))), spec_nil, app_nil_r. reflexivity.
 Qed.
+
+(* ---------- chars, pop, retain ---------- *)
+Lemma chars_of_spec : forall fuel s, Valid s -> (length s <= fuel)%nat ->
+  concat (chars_of fuel s) = s /\ Forall wf_char (chars_of fuel s).
+Proof.
+  induction fuel as [|fuel IH]; intros s V L.
+  - destruct s; [split; [reflexivity | constructor] | cbn in L; lia].
+  - cbn [chars_of]. destruct s as [|b0 r] eqn:Es; [split; [reflexivity | constructor]|]. rewrite <- Es in *.
+    destruct (Valid_tail_char s V) as (n & C & Vr & W); [rewrite Es; discriminate|].
+    rewrite C. destruct (char_len_spec s n C) as ((N1 & _) & N2 & _).
+    destruct (IH (skipn n s) Vr) as [E F]; [rewrite skipn_length; lia|].
+    cbn [concat]. rewrite E, firstn_skipn. split; [reflexivity | constructor; assumption].
+Qed.
+
+Lemma chars_spec s : Valid s -> concat (chars s) = s /\ Forall wf_char (chars s).
+Proof. intros V. apply chars_of_spec; [exact V | lia]. Qed.
+
+Lemma Valid_concat l : Forall wf_char l -> Valid (concat l).
+Proof. induction 1 as [|ch r W _ IH]; cbn [concat]; [constructor | apply V_char; assumption]. Qed.
+
+Lemma keep_by_forall {A} (P : A -> Prop) l : forall keep, Forall P l -> Forall P (keep_by l keep).
+Proof.
+  induction l as [|x r IH]; intros keep F; [destruct keep; constructor|].
+  destruct keep as [|k ks]; [constructor|]. inversion F; subst. cbn [keep_by]. destruct k; [constructor|]; auto.
+Qed.
+
+(* retain keeps whole characters only: the text stays valid whatever the predicate answers *)
+Theorem s_retain_valid s keep : Valid s -> Valid (s_retain s keep).
+Proof.
+  intros V. unfold s_retain. apply Valid_concat. apply keep_by_forall. apply (chars_spec s V).
+Qed.
+
+Theorem s_retain_all s keep : Valid s -> (length (chars s) <= length keep)%nat -> Forall (fun k => k = true) keep ->
+  s_retain s keep = s.
+Proof.
+  intros V L K. unfold s_retain. rewrite <- (proj1 (chars_spec s V)) at 2. f_equal.
+  revert keep L K. induction (chars s) as [|x r IH]; intros keep L K; [destruct keep; reflexivity|].
+  destruct keep as [|k ks]; [cbn in L; lia|]. inversion K; subst. cbn [keep_by]. f_equal. apply IH; [cbn in L; lia | assumption].
+Qed.
+
+(* pop: what remains is valid, and remaining ++ popped character is the old text *)
+Theorem s_pop_spec s : Valid s -> s <> [] ->
+  exists ch cp, s_pop s = (fst (s_pop s), Some cp) /\ fst (s_pop s) ++ ch = s /\ wf_char ch /\
+                decode ch = Some cp /\ Valid (fst (s_pop s)).
+Proof.
+  intros V Hne. destruct (chars_spec s V) as [E F]. unfold s_pop.
+  destruct (rev (chars s)) as [|ch before] eqn:R.
+  - exfalso. assert (chars s = []) by (rewrite <- (rev_involutive (chars s)), R; reflexivity).
+    rewrite H in E. cbn in E. symmetry in E. contradiction.
+  - assert (Ec : chars s = rev before ++ [ch]) by (rewrite <- (rev_involutive (chars s)), R; reflexivity).
+    rewrite Ec in E, F. rewrite concat_app in E. cbn [concat] in E. rewrite app_nil_r in E.
+    apply Forall_app in F. destruct F as [Fb Fc]. inversion Fc as [|? ? W _]; subst.
+    cbn [fst].
+    assert (D : exists cp, decode ch = Some cp).
+    { unfold decode. pose proof W as W'. unfold wf_char in W'. rewrite W'.
+      destruct ch as [|b0 [|b1 [|b2 [|b3 [|b4 r]]]]]; cbn [length]; try (eexists; reflexivity).
+      - cbn in W'. discriminate.
+      - destruct (char_len_spec _ _ W') as ((_ & N4) & _). cbn [length] in N4. lia. }
+    destruct D as (cp & D). exists ch, cp. rewrite D.
+    split; [reflexivity|]. split; [first [exact E | reflexivity]|]. split; [exact W|]. split; [reflexivity|].
+    apply Valid_concat. exact Fb.
+Qed.
